@@ -46,7 +46,9 @@ KeySourceMerge(a, b) ==
   ELSE IF IsStrictSuffix(a[2], b[2]) THEN <<"ok", b>>        \* keep the longer derivation
   ELSE IF IsStrictSuffix(b[2], a[2]) THEN <<"ok", a>>
   ELSE <<"conflict">>                                        \* equal paths with different fingerprints, unrelated paths
-KeySources == { <<f, p>> : f \in {"F1", "F2"}, p \in { << >>, <<1>>, <<2>>, <<1, 2>>, <<2, 1>>, <<3, 1, 2>>, <<1, 2, 3>> } }
+\* child numbers: n is the normal child n, 100 + n the hardened child n' (different children: a path ending in 1, 2 is not a suffix of
+\* one ending in 1', 2)
+KeySources == { <<f, p>> : f \in {"F1", "F2"}, p \in { << >>, <<1>>, <<2>>, <<1, 2>>, <<2, 1>>, <<3, 1, 2>>, <<1, 2, 3>>, <<101, 2>>, <<3, 101, 2>>, <<102>>, <<103, 101, 102>> } }
 KeySourceCommutes == \A a, b \in KeySources : KeySourceMerge(a, b) = KeySourceMerge(b, a)
 KeySourceKeepsLongest == \A a, b \in KeySources : KeySourceMerge(a, b)[1] = "ok" => Len(KeySourceMerge(a, b)[2][2]) >= Len(a[2]) /\ Len(KeySourceMerge(a, b)[2][2]) >= Len(b[2])
 =============================================================================
